@@ -2,7 +2,7 @@
 discarded exception objects, R-EXH feasibility of unimplemented branches, eval closure)."""
 import ast
 
-from ..astutil import unparse, short, walk_local, dotted, const_value
+from ..astutil import unparse, short, walk_local, dotted, const_value, norm_text
 from ..cfg import cfg_of
 from ..srcmodel import AnalysisError, FuncInfo
 from ..xsdmodel import local, XS
@@ -141,7 +141,7 @@ def escapes(ctx, cg, ef, entries):
                 res.ok('R-EFF.escape', f.fq, f"`{short(r.node, 60)}` ({r.exc}) is caught before it reaches an entry point", line=r.node.lineno)
                 continue
             ok, why = _discharge(ctx, cg, ef, f, r)
-            key = f"R-EFF.escape|{r.exc}|{f.qualname}|{short(r.node, 70)}"
+            key = f"R-EFF.escape|{r.exc}|{f.qualname}|{norm_text(r.node, f.node, 70)}"
             if ok:
                 res.ok('R-EFF.escape', f.fq, f"`{short(r.node, 60)}` ({r.exc}) cannot be reached: {why}", line=r.node.lineno)
             else:
@@ -347,7 +347,7 @@ def subscripts(ctx, cg, ef, entries):
         if f not in entries:
             continue
         n += 1
-        key = f"R-TAINT.subscript|{sf.qualname}|{short(node, 60)}"
+        key = f"R-TAINT.subscript|{sf.qualname}|{f.qualname}({f.params[i]})"
         if key in reported:
             continue
         reported.add(key)
@@ -390,7 +390,7 @@ def discarded_exceptions(ctx, cg, entries):
                 if nm.endswith('Error') or nm.endswith('Exception'):
                     n += 1
                     res.finding('R-EXH.discarded', f.fq, f"`{short(st, 60)}` is raised, not dropped",
-                                "the object is built and discarded; execution continues with the case unhandled", key=f"R-EXH.discarded|{f.qualname}|{short(st, 50)}",
+                                "the object is built and discarded; execution continues with the case unhandled", key=f"R-EXH.discarded|{f.qualname}|{norm_text(st, f.node, 50)}",
                                 line=st.lineno)
     if n == 0:
         res.ok('R-EXH.discarded', 'runtime closure', "no discarded exception object")
